@@ -157,6 +157,12 @@ PROBES = {
         rejected("attr", "Deref", "struct X;", True), rejected("attr", "Deref", "struct X {}", True), rejected("attr", "Deref", "struct X(u8);", False),
         rejected("attr", "Deref", "struct X { a: u8 }", False), rejected("attr", "Deref", "struct X(u8, u8);", True), rejected("attr", "Deref, DerefMut", "struct X { a: u8, b: u8, c: u8 }", True),
     ],
+    # the methods are declared with the field's own type: a DerefMut next to a hand-written Deref with another Target is refused by rustc rather than coerced
+    "C18.signature": [
+        matches("attr", "Deref", "struct X(String);", r"type Target = String ; fn deref \(& self\) -> & String \{ & self \. 0 \}", True),
+        matches("attr", "DerefMut", "struct X(String);", r"fn deref_mut \(& mut self\) -> & mut String \{ & mut self \. 0 \}", True),
+        matches("attr", "Deref, DerefMut", "struct X<T> { v: Box<T> }", r"type Target = Box < T > ; fn deref \(& self\) -> & Box < T > \{ & self \. v \}.*fn deref_mut \(& mut self\) -> & mut Box < T > \{ & mut self \. v \}", True),
+    ],
     "C01.to_index": [
         matches("attr", "PartialOrd, PartialEq", "enum X { A, B(u8), C { x: u8 } }", r"\(?Self :: A\)? => 0usize , \(?Self :: B \(\.\.\)\)? => 1usize , \(?Self :: C \{ \.\. \}\)? => 2usize", True),
     ],
